@@ -143,6 +143,10 @@ pub fn run() {
         last_cap = w.big.capacity();
     }
     println!("B7 len={} cap={} monotone={} failed_at={} growths_ge1={}", w.big.len(), w.big.capacity(), monotone as u8, failed_at, (growths >= 1) as u8);
+    drop(w);
+    // B11: every world of this run has been dropped; no array was resized or released with a
+    // layout that is not its own (harness/alloc_check), whatever panicked on the way
+    println!("B11 alloc={}", match alloc_check::take() { None => "0".to_string(), Some(m) => format!("1 {}", m) });
 }
 
 /// C08 / C10 / C19: the generation boundary reached with 2^32 - 1 REAL create/destroy cycles on one
